@@ -179,12 +179,15 @@ class QuadricTensor(ProjectiveTensor, ABC):
             p = -b[(*indices, slice(None), i)] / np.where(beta != 0, beta, -1)[..., None]
 
         else:
-            ind = np.indices((n, n))
-            ind = np.stack(
-                [np.delete(np.delete(ind, i, axis=1), i, axis=2) for i in combinations(range(n), n - 2)], axis=1
-            )
-            minors = det(self.array[..., ind[0], ind[1]])
-            p = csqrt(-minors)  # type: ignore[arg-type]
+            # The 2x2 minor with the rows of the index pair r and the columns of the pair s is -P_r * P_s, where P are the
+            # Pluecker coordinates of the subspace the two components have in common. The square roots of the principal
+            # minors alone lose the signs of the coordinates, so only one of them is taken from its principal minor.
+            pairs = np.array([np.delete(np.arange(n), i) for i in combinations(range(n), n - 2)])
+            minors = det(self.array[..., pairs[:, None, :, None], pairs[None, :, None, :]])
+            diagonal = np.diagonal(minors, axis1=-2, axis2=-1)
+            i = np.argmax(np.abs(diagonal), axis=-1)
+            beta = csqrt(-diagonal[(*indices, i)])
+            p = -minors[(*indices, slice(None), i)] / np.where(beta != 0, beta, -1)[..., None]
 
         # use the skew symmetric matrix m to get a matrix of rank 1 defining the same quadric
         m = hat_matrix(p)
